@@ -153,6 +153,12 @@ impl TermLike for Recorder {
 }
 
 /// Output files: one line per case, aligned between `cases` (model input) and `impl` (observations).
+static CURRENT_PATH: std::sync::OnceLock<String> = std::sync::OnceLock::new();
+/// where the history about to run is noted (`<observations file>.current`): if the crate aborts the process (a panic while another
+/// unwinds, in a `Drop` that draws), the check reads the history from there
+pub fn set_current_path(p: String) { let _ = std::fs::remove_file(&p); let _ = CURRENT_PATH.set(p); }
+pub fn about_to_run(case: &str) { if let Some(p) = CURRENT_PATH.get() { let _ = std::fs::write(p, case); } }
+
 pub struct Out { pub cases: std::io::BufWriter<std::fs::File>, pub imp: std::io::BufWriter<std::fs::File>, pub n: usize }
 impl Out {
     pub fn new(cases: &str, imp: &str) -> Self {
